@@ -119,10 +119,14 @@ video_sink_start(struct video_sink_s* self)
     // Register this reader before anything can be written. A channel without
     // readers lets the writer run (and wrap) freely, so frames written before
     // the sink thread's first read would be lost.
-    {
+    // Anything still in the queue was left behind by an acquisition that
+    // failed or was aborted: discard it, it must not leak into this one.
+    for (;;) {
         struct slice slice = channel_read_map(&self->in, &self->reader);
-        (void)slice;
-        channel_read_unmap(&self->in, &self->reader, 0);
+        const size_t nbytes = slice.end - slice.beg;
+        channel_read_unmap(&self->in, &self->reader, nbytes);
+        if (!nbytes)
+            break;
     }
     self->is_stopping = 0;
     self->is_running = 1;
